@@ -445,8 +445,23 @@ def run_task(table, specs, contract, cls, both=False):
         res['results'] = [r.as_dict() for r in res['results']]
     except Unsupported as e:
         res['undecided'] = str(e)
+        # no proof attempt is possible (construct outside the subset, loop without invariant ...): a real failing
+        # input can still be looked for by bounded unrolling, which needs no invariants
+        try:
+            extra = [r for r in res['results'] if isinstance(r, Result)]
+            fi = table.get_function(contract.qual)
+            refute_unrolled(table, specs, contract, cls, extra, {'fn': fi.where if fi else ''})
+            found = [r for r in extra if r.status == 'refuted' and getattr(r, 'replay', None)]
+            res['results'] = [r.as_dict() for r in found]
+        except Unsupported as e2:
+            res['results'] = []
+            res['notes'].append(f'bounded unrolling not possible either: {e2}')
+        except Exception as e2:
+            res['results'] = []
+            res['notes'].append(f'bounded unrolling failed: {type(e2).__name__}: {e2}')
     except Exception as e:
         res['error'] = f'{type(e).__name__}: {e}\n' + traceback.format_exc()[-1500:]
+    res['notes'] = list(res.get('notes', [])) + sorted(specs.header_mismatches)
     res['seconds'] = time.time() - t0
     return res
 
